@@ -76,7 +76,7 @@ MergeCase(mode, lk, rk) ==
   [fam |-> "merge", mode |-> mode, L |-> MkRows(lk, mode \in {"ii", "ic"}), R |-> MkRows(rk, mode \in {"ii", "ci"})]
 MergeExpected(c) ==
   [rows |-> [h \in HowsOf(c.mode) |-> MergeRows(c.L, c.R, h, c.mode)],
-   seq  |-> IF c.mode = "ii" /\ SortedNoNA(c.L) /\ SortedNoNA(c.R)
+   seq  |-> IF c.mode = "ii" /\ UniqueSortedIdx(c.L) /\ UniqueSortedIdx(c.R)
             THEN [h \in HowsOf(c.mode) |-> MergeSeq(c.L, c.R, h, c.mode)] ELSE <<>>,
    mask |-> [nm \in NamingsOf(c.mode) |-> Mask(nm)]]
 
@@ -173,8 +173,8 @@ PairsSane ==
     LET L == jc.L   R == jc.R   md == jc.mode
         rows(h) == je.rows[h]
         lk(row) == LKey(row, md)   rk(row) == RKey(row, md)
-        vals == { lk(L[i]) : i \in DOMAIN L } \cup { rk(R[j]) : j \in DOMAIN R }
-    IN /\ Cardinality(rows("inner")) = SumSeq([q \in DOMAIN Asc(vals) |-> CountKey(L, lk, Asc(vals)[q]) * CountKey(R, rk, Asc(vals)[q])])
+        vals == Asc({ lk(L[i]) : i \in DOMAIN L } \cup { rk(R[j]) : j \in DOMAIN R })
+    IN /\ Cardinality(rows("inner")) = SumSeq([q \in DOMAIN vals |-> CountKey(L, lk, vals[q]) * CountKey(R, rk, vals[q])])
        /\ \A t \in rows("outer") : (t[1] # 0 /\ t[2] # 0) => (t[4] = t[5] /\ t[3] = 0 /\ t \in rows("inner"))
        /\ \A t \in rows("outer") : t[2] = 0 => (t[3] = 1 /\ t[5] = NA /\ t[8] = NA /\ ~\E u \in rows("inner") : u[1] = t[1])
        /\ \A t \in rows("outer") : t[1] = 0 => (t[3] = 2 /\ t[4] = NA /\ t[7] = NA /\ ~\E u \in rows("inner") : u[2] = t[2])
@@ -187,14 +187,14 @@ PairsSane ==
             /\ Cardinality(rows("leftsemi")) = Cardinality({ t[1] : t \in rows("inner") })
             /\ \A t \in rows("leftsemi") : t[2] = 0 /\ t[8] = NA
 
-Heavy == IsCase("merge") /\ (Len(jc.L) + Len(jc.R) <= 3
-                              \/ Sample([i \in DOMAIN jc.L |-> LKey(jc.L[i], jc.mode)], [j \in DOMAIN jc.R |-> RKey(jc.R[j], jc.mode)], 3, HeavyMod))
+\* the decomposition laws are expensive: they are checked on a salted 1 / HeavyMod sample of the merge cases
+Heavy == IsCase("merge") /\ Sample([i \in DOMAIN jc.L |-> LKey(jc.L[i], jc.mode)], [j \in DOMAIN jc.R |-> RKey(jc.R[j], jc.mode)], 3, HeavyMod)
 
 \* hash join: ANY function of the key that sends both operands to 2 partitions, joined partition by partition
 Sel(F, key(_), hf, p) == SelectSeq(F, LAMBDA row : hf[key(row)] = p)
 HashDecomposes ==
   Heavy =>
-    \A hf \in [KeysNA -> 1..2] :
+    \A hf \in { g \in [KeysNA -> 1..2] : g[NA] = 1 } :        \* (the two partitions are interchangeable)
       \A h \in HowsOf(jc.mode) :
         je.rows[h] = UNION { MergeRows(Sel(jc.L, LAMBDA row : LKey(row, jc.mode), hf, p),
                                        Sel(jc.R, LAMBDA row : RKey(row, jc.mode), hf, p), h, jc.mode) : p \in 1..2 }
